@@ -379,6 +379,9 @@ func (e *c02) deliver(m *Msg) {
 	}
 	after, has := c.View(m.To)[node]
 	r.Logf("deliver %s(%s@%d prune=%v) to n%d: %v -> %v", kind, node, lt, prune, m.To, before, after)
+	if !has && e.prev[m.To] != nil {
+		delete(e.prev[m.To], node) // erased (prune): a later entry for the name starts afresh
+	}
 	if had && lt <= before.LTime {
 		r.Probe("stale-intent-delivered")
 		if !has || after.Status != before.Status || after.LTime != before.LTime {
@@ -632,23 +635,27 @@ func (e *c02) closing() {
 				for st, who := range statuses {
 					if st != "left" {
 						key := "C02 left-not-left"
-						flap := true
-						for _, o := range who {
-							if !m.flapAfterLeave[o] {
-								flap = false
+						// every still-running observer that had applied the leave lost it again
+						// through one of the two recorded mechanisms (observers that never heard
+						// the leave cannot be expected to know)
+						flap, relayed, all := false, false, true
+						for o := range m.leaveHeard {
+							if !e.m[o].running {
+								continue
+							}
+							switch {
+							case m.flapAfterLeave[o]:
+								flap = true
+							case m.ppResurrected[o]:
+								relayed = true
+							default:
+								all = false
 							}
 						}
-						if flap {
-							key = "C02 leave-forgotten-after-flap"
-						}
-						relayed := true
-						for _, o := range who {
-							if !m.ppResurrected[o] {
-								relayed = false
-							}
-						}
-						if relayed {
+						if all && relayed {
 							key = "C02 leave-relayed-as-join-by-pushpull"
+						} else if all && flap {
+							key = "C02 leave-forgotten-after-flap"
 						}
 						r.Fail("left-member-not-left", key, "member %s left gracefully (intent applied by a still-running observer) but %v list it as %s; all: %s", name, who, st, desc)
 					}
